@@ -1,4 +1,5 @@
 //! Shared harness code: schemas, worlds, glue to the reference model.
+pub mod casecheck;
 pub mod gen;
 pub mod glue;
 pub mod s1;
@@ -15,4 +16,14 @@ pub fn run_s1(schema: &s1::S1, query: &str, op: Option<&str>, vars: &Map<String,
         req = req.operation_name(o);
     }
     drive(schema.execute(req)).ok_or_else(|| "execute future parked without a waker".to_string())
+}
+
+/// Execute a (subscription) request on S1 and collect every response of the stream.
+pub fn run_s1_stream(schema: &s1::S1, query: &str, op: Option<&str>, vars: &Map<String, J>, wd: s1::W) -> Result<Vec<Response>, String> {
+    use futures_util::StreamExt;
+    let mut req = Request::new(query).variables(Variables::from_json(J::Object(vars.clone()))).data(wd);
+    if let Some(o) = op {
+        req = req.operation_name(o);
+    }
+    drive(schema.execute_stream(req).collect::<Vec<_>>()).ok_or_else(|| "execute_stream parked without a waker".to_string())
 }
